@@ -20,6 +20,23 @@ from .spy import HarnessAbort, Hooks, SimBackend, SpyBackend, Trace
 from .storages import make_storage
 
 
+class FileSinkHandler(logging.Handler):
+    """A second handler on the labtech logger whose sink is shared across fork (O_APPEND file): a copy of it that
+    survives in a worker and emits there shows up in the file, with the worker's pid."""
+
+    def __init__(self, path):
+        super().__init__(level=0)
+        self.path = path
+
+    def emit(self, record):
+        try:
+            fd = os.open(self.path, os.O_WRONLY | os.O_APPEND | os.O_CREAT)
+            os.write(fd, (json.dumps([os.getpid(), record.getMessage()]) + '\n').encode())
+            os.close(fd)
+        except Exception:   # noqa
+            pass
+
+
 class SinkHandler(logging.Handler):
     def __init__(self):
         super().__init__(level=0)
@@ -334,6 +351,10 @@ def run_dag(scn, *, hooks_factory=None, keep=False, extra_hooks=None, before_run
         signal.alarm(scn.get('watchdog_s', 150))     # property-specific hooks may re-arm it with their own bound
         if before_run is not None:
             before_run(out)
+        file_sink = None
+        if scn.get('file_sink'):
+            file_sink = FileSinkHandler(os.path.join(ctl, 'logsink.jsonl'))
+            labtech.logger.addHandler(file_sink)
         if scn.get('logger_level'):
             # the caller's program configured the verbosity of the labtech logger (README: logger.setLevel(...))
             labtech.logger.setLevel(getattr(logging, scn['logger_level']))
@@ -365,6 +386,14 @@ def run_dag(scn, *, hooks_factory=None, keep=False, extra_hooks=None, before_run
                       for e in ledger.entries]
         out.events = events.read_events(ctl)[pre_events:]
         out.logs = list(sink.records)
+        out.file_logs = None
+        if file_sink is not None:
+            labtech.logger.removeHandler(file_sink)
+            try:
+                with open(file_sink.path) as f:
+                    out.file_logs = [json.loads(ln) for ln in f if ln.strip()]
+            except FileNotFoundError:
+                out.file_logs = []
         out.exc_info = exc_info(out.exc) if out.exc is not None else None
         if out.result is not None:
             out.result_list = [(t.name, body.base_of(v)) for t, v in out.result.items()]
